@@ -484,6 +484,11 @@ def check_default(run, eo, lab, da, lfi):
 # C07 identity & references
 # ------------------------------------------------------------------------------------------------
 
+# (set type, attribute label) of references whose target may be of any type (schema kind 'ref:*' / 'objref')
+ANY_TYPE_REFERENCES = {(schema.TYPES[t]['set'], lab) for t in schema.TYPES for kw, lab, kind, multi in schema.TYPES[t]['attrs']
+                       if kind in ('ref:*', 'objref')}
+
+
 def check_c07(run: Run) -> None:
     match(run)
     if run.stage_error and run.stage_error[0] == 'semantic' and run.stage_error[1].kind.startswith('iflr'):
@@ -554,6 +559,11 @@ def check_c07(run: Run) -> None:
                                 if len(cands) == 0:
                                     run.v('C07', 'reference-unresolved', 'obname-unresolved',
                                           f'lf {lfi}: {x.type} {o.name} {a.label} -> {val} matches no object')
+                                elif len(set(cands)) > 1 and (x.type, a.label) in ANY_TYPE_REFERENCES:
+                                    # a reference that may point to an object of ANY type, written without the type: it
+                                    # matches objects of several types
+                                    run.v('C07', 'reference-unresolved', 'obname-ambiguous-across-types',
+                                          f'lf {lfi}: {x.type} {o.name} {a.label} -> {val} (no type written) matches objects of types {sorted(set(cands))}')
             else:
                 want_type = 'FRAME' if x.type == 0 else 'NO-FORMAT'
                 key = (want_type,) + tuple(x.ref)
